@@ -145,17 +145,49 @@ def check_set_reading(prop: str, res: Result, repo: Repo):
     else:
         res.fail(RULE, finding(prop, RULE, sr, sr.node, "Managed.set_reading must store at self._active_index", construct="set_reading: target index"))
     st = repo.method("hexital.core.indicator", "Indicator", "_set_reading")
-    from .structure import canon_if
+    from .structure import canon_if, canon_ifexp
+
+    ps = [a.arg for a in st.node.args.args if a.arg != "self"]
+    rd_p, ix_p = (ps + ["reading", "index"])[:2]
+    defs = {}
+    for n in ast.walk(st.node):
+        if isinstance(n, ast.Assign) and len(n.targets) == 1 and isinstance(n.targets[0], ast.Name) and n.targets[0].id not in (rd_p, ix_p):
+            defs.setdefault(n.targets[0].id, []).append(n.value)
+
+    class _Res(ast.NodeTransformer):
+        def visit_Name(self, node):
+            if isinstance(node.ctx, ast.Load) and len(defs.get(node.id, ())) == 1:
+                import copy as _c
+
+                return self.visit(_c.deepcopy(defs[node.id][0]))
+            return node
+
+    def resolved(e):
+        import copy as _c
+
+        return ast.unparse(_Res().visit(_c.deepcopy(e)))
 
     ok_sr = False
+    want_sub, want_top = f"self.candles[{ix_p}].sub_indicators", f"self.candles[{ix_p}].indicators"
+    # (a) statement form: if self._sub_indicator: <sub store> else: <top store>
     for n in ast.walk(st.node):
         if isinstance(n, ast.If):
             tst, then, other = canon_if(n)
             if ast.unparse(tst) == "self._sub_indicator":
-                tt, ot = " ; ".join(ast.unparse(x) for x in then), " ; ".join(ast.unparse(x) for x in other)
-                ps = [a.arg for a in st.node.args.args if a.arg != "self"]
-                rd_p, ix_p = (ps + ["reading", "index"])[:2]
-                ok_sr = f"self.candles[{ix_p}].sub_indicators[self.name] = {rd_p}" in tt and f"self.candles[{ix_p}].indicators[self.name] = {rd_p}" in ot and "sub_indicators" not in ot
+                def stores(stmts):
+                    return [resolved(t.value) for x in stmts for s_ in ast.walk(x) if isinstance(s_, ast.Assign) for t in s_.targets if isinstance(t, ast.Subscript) and ast.unparse(t.slice) == "self.name" and ast.unparse(s_.value) == rd_p]
+                ok_sr = ok_sr or (stores(then) == [want_sub] and stores(other) == [want_top])
+    # (b) expression form: <sub dict> if self._sub_indicator else <top dict>, then one store into it
+    for n in ast.walk(st.node):
+        if isinstance(n, ast.Assign) and ast.unparse(n.value) == rd_p:
+            for t in n.targets:
+                if isinstance(t, ast.Subscript) and ast.unparse(t.slice) == "self.name":
+                    import copy as _c
+
+                    base = _Res().visit(_c.deepcopy(t.value))
+                    if isinstance(base, ast.IfExp):
+                        c, a, b = canon_ifexp(base)
+                        ok_sr = ok_sr or (c == "self._sub_indicator" and a == want_sub and b == want_top)
     if ok_sr:
         res.ok(RULE, {"helper": "Indicator._set_reading", "writes": "helper readings to sub_indicators, top-level readings to indicators, keyed by self.name"}, nontrivial="_set_reading")
     else:
